@@ -268,6 +268,11 @@ def extra_defaults(f, known: Iterable[str], prog=None
         if isinstance(d, _ast.Constant):
             out[p] = const(d.value)
             continue
+        if isinstance(d, _ast.UnaryOp) and isinstance(d.op, _ast.USub) and \
+                isinstance(d.operand, _ast.Constant) and \
+                isinstance(d.operand.value, (int, float)):
+            out[p] = const(-d.operand.value)
+            continue
         if d is None or prog is None:
             return None
         # an enum member / named constant as default
@@ -390,10 +395,14 @@ def const_eval(t: T, env: Optional[Dict[T, object]] = None):
                     "In": lambda: a in b, "NotIn": lambda: a not in b,
                     "Is": lambda: a is b, "IsNot": lambda: a is not b,
                     }[x.args[0]]()
-        if x.op == "binop" and x.args[0] in ("Add", "Sub", "Mult"):
+        if x.op == "binop" and x.args[0] in ("Add", "Sub", "Mult", "Div"):
             a, b = ev(x.args[1]), ev(x.args[2])
             return {"Add": lambda: a + b, "Sub": lambda: a - b,
-                    "Mult": lambda: a * b}[x.args[0]]()
+                    "Mult": lambda: a * b, "Div": lambda: a / b
+                    }[x.args[0]]()
+        if x.op == "global" and x.args[0] in ("numpy.pi", "math.pi"):
+            import math as _m
+            return _m.pi
         if x.op == "sub":
             b = ev(x.args[0])
             i = x.args[1]
@@ -418,6 +427,16 @@ def const_eval(t: T, env: Optional[Dict[T, object]] = None):
                     return isinstance(ev(x.args[1][0]), tuple(pyt[n_]
                                                      for n_ in names))
             args = [ev(a) for a in x.args[1]]
+            if n in ("numpy.deg2rad", "numpy.radians", "math.radians") and \
+                    len(args) == 1:
+                import math as _m
+                return _m.radians(args[0])
+            if n in ("numpy.rad2deg", "numpy.degrees", "math.degrees") and \
+                    len(args) == 1:
+                import math as _m
+                return _m.degrees(args[0])
+            if n in ("builtins.float",) and len(args) == 1:
+                return float(args[0])
             if n in ("builtins.max", "builtins.min", "builtins.abs") and \
                     args and not x.args[2]:
                 return {"builtins.max": max, "builtins.min": min,
@@ -806,6 +825,71 @@ def root_object(t: T) -> T:
         else:
             break
     return t
+
+
+def motion_filter_probe(prog, caller, call_pred, dist_cli: T, ang_cli: T):
+    """What does the motion filter behind each selected call compare with?
+    The caller is interpreted with the method and evo.core.filters looked
+    through; for every call the thresholds that meet the accumulated
+    distance and the rotation angle in a comparison are evaluated for
+    (distance, angle) = (1.0, 1.0) given on the command line.  Whatever the
+    signature in between (a degrees flag, a unit enum, a helper that converts
+    once) the distance must arrive as 1.0 and the angle — typed in degrees —
+    as pi/180 rad.  Returns [(call event, distance value | None, angle value
+    | None)]; None where no such comparison was found / evaluated."""
+    from .interp import Interp
+
+    def inline(fn):
+        return fn.qualname.endswith((".motion_filter",)) or \
+            fn.qualname == "evo.core.filters.filter_by_motion"
+    r = Interp(prog, inline=inline, max_depth=4).run(caller)
+    calls = [e for e in r.of_kind("call") if call_pred(e)]
+    out = []
+    env = {dist_cli: 1.0, ang_cli: 1.0}
+    for k, ce in enumerate(calls):
+        hi = min([x.idx for x in calls if x.idx > ce.idx] or
+                 [len(r.events) + 1])
+        dist_v = ang_v = None
+        seen = set()
+        for e in r.events:
+            if not (ce.idx < e.idx < hi) or e.depth <= ce.depth:
+                continue
+            pool = list(tm.atoms(e.live))
+            for key in ("value",):
+                v = e.data.get(key)
+                if isinstance(v, T):
+                    pool += [a for x in v.walk() if x.op == "ite"
+                             for a in tm.atoms(x.args[0])]
+            for a in pool:
+                while a.op == "not":
+                    a = a.args[0]
+                if id(a) in seen or a.op != "cmp":
+                    continue
+                seen.add(id(a))
+                for mine, other in ((a.args[1], a.args[2]),
+                                    (a.args[2], a.args[1])):
+                    is_ang = any(x.op == "call" and (
+                        tm.callee_name(x) or "").endswith("so3_log_angle")
+                        for x in mine.walk())
+                    is_dist = any(x.op == "call" and (
+                        tm.callee_name(x) or "").endswith(
+                        "accumulated_distances") for x in mine.walk())
+                    if not (is_ang or is_dist) or any(
+                            x.op == "call" and (tm.callee_name(x) or "")
+                            .endswith(("so3_log_angle",
+                                       "accumulated_distances"))
+                            for x in other.walk()):
+                        continue
+                    try:
+                        val = float(const_eval(other, env))
+                    except Exception:
+                        continue
+                    if is_ang:
+                        ang_v = val
+                    else:
+                        dist_v = val
+        out.append((ce, dist_v, ang_v))
+    return out
 
 
 # ------------------------------------------------- position algebra
